@@ -701,6 +701,53 @@ def run_image_corr(rep, rng, tier):
                 "AND the untouched remainder are compared"}
 
 
+
+# ------------------------------------------------------------------------------------------------ FAT32 BAD range
+def run_bad_range(rep):
+    """The top of the FAT32 range (tables reaching cluster numbers 0x0FFFFFF0..): the extracted model cannot zero a 1 GiB table,
+    so the BAD-range branch of format_fat is tied to the code through the statement of C06_image_fat / C06_image_free_space:
+    the real library formats a sparse 128 GiB device and the raw entries / FS-info words must be the ones the theorems give."""
+    BAD0, BAD1 = 0x0FFFFFF0, 0x10000000
+    for ts in (270532604, 270532598, 270532590):
+        fatpos = 8 * 512
+        first = BAD0 - 12
+        sc = ["dev %d 0" % (ts * 512), "wlog 0", "format 512 %d 512 32 - 1 - - -" % ts, "dump 0 512",
+              "dump %d %d" % (fatpos + 4 * first, 4 * (BAD1 - first)), "dump %d 12" % fatpos, "dump %d 8" % (512 + 488),
+              "mount 1 0 lossy", "stats", "unmount"]
+        rs = vlib.run_scripts([sc])[0]
+        rep.count()
+        replay = {"script": sc, "theorem_or_correspondence": "C06_image_fat / C06_image_free_space (BAD range 0x0FFFFFF0.. of format_fat) vs src/table.rs format_fat"}
+        if any(r.kind != "ok" for r in rs[:7]):
+            rep.violation("[bad range] format of a %d-sector FAT32 volume: %s" % (ts, [(r.kind, r.payload[:40]) for r in rs if r.kind != "ok"][:2]),
+                          replay, nofail=not any(r.kind == "panic" for r in rs)); continue
+        g = [int(x) for x in vlib.model_run("c06g", rs[3].payload + "\n")[0].split(" ")]
+        total, spf = g[7], g[6]
+        entries = spf * 512 // 4
+        raw = bytes.fromhex(rs[4].payload)
+        got = [le(raw, 4 * i, 4) & 0x0FFFFFFF for i in range(BAD1 - first)]
+        exp = []
+        for x in range(first, BAD1):
+            if x >= entries:
+                exp.append(None)
+            elif x < total + 2:
+                exp.append(0x0FFFFFF7 if x >= BAD0 else 0)                          # data_val
+            else:
+                exp.append(0x0FFFFFF7 if BAD0 <= x < BAD1 else 0x0FFFFFFF)          # spare_val
+        bad = [(first + i, hex(a), hex(e)) for i, (a, e) in enumerate(zip(got, exp)) if e is not None and a != e]
+        head = bytes.fromhex(rs[5].payload)
+        fsw = bytes.fromhex(rs[6].payload)
+        if bad or le(head, 0, 4) != 0x0FFFFFF8 or le(head, 4, 4) != 0xFFFFFFFF or le(head, 8, 4) & 0x0FFFFFFF != 0x0FFFFFFF \
+           or le(fsw, 0, 4) != total - 1 or le(fsw, 4, 4) != 3:
+            rep.violation("[bad range] %d sectors (%d clusters): FAT entries / FS-info differ from C06_image_fat: %s" % (ts, total, bad[:3]),
+                          replay, nofail=True); continue
+        rep.cov["traces_validated_against_impl"] += 1
+        rep.distinct(("badrange", ts))
+        nbad = max(0, total + 2 - BAD0)
+        rep.cov.setdefault("bad_range_volumes", []).append(
+            {"total_sectors": ts, "clusters": total, "table_entries": entries, "data_clusters_marked_bad": nbad,
+             "fsinfo_free": le(fsw, 0, 4), "free_entries_in_table": total - 1 - nbad, "stats": rs[8].payload})
+
+
 # ------------------------------------------------------------------------------------------------ entry
 def run(rep, tier, seed):
     rng = vlib.Rng(seed)
@@ -759,6 +806,7 @@ def run(rep, tier, seed):
     t3 = time.time()
     # ---- the whole device image after format_volume against the extracted format_image
     run_image_corr(rep, rng, tier)
+    run_bad_range(rep)
     t4 = time.time()
     rep.cov["distribution"] = {
         "boundary_configurations": nconf, "boundary_lines": nb, "random_grid_lines": nr, "targeted_lines": nt, "malformed_lines": nm,
@@ -773,5 +821,6 @@ def run(rep, tier, seed):
                        "library's 512 bytes; distinct_nontrivial = distinct ACCEPTED requests whose boot sector matched the model and passed "
                        "every clause, plus distinct image configurations that passed all image-level checks; sweep evaluations are counted in "
                        "'evaluations' only")
-    rep.cov["not_covered"] = ("image-level theorem (abs(format_image) = empty volume) is not proved; the image is checked on the implementation only "
-                              "(mount/stats/list/label/raw FAT, root, FS-info, backup sector)")
+    rep.cov["not_covered"] = ("the whole-volume statement abs(format_image ..) = empty volume is proved clause by clause (boot sector, FAT, root "
+                              "directory via Abs.dir_scan, FS-info, frame) and evaluated through Spec/Abs.v + Spec/Wf.v on two examples, not as one "
+                              "theorem over Abs.abs; device-size errors (device smaller than the requested volume) are not modelled")
